@@ -14,7 +14,7 @@ CHECKS = {
          "Random histories on engine-built generators (all voice kinds) and the complete set of histories over {Step(fp), Step(2fp+1), Step(3fp), Frames, Finish} up to length 4 (quick) / 6 (thorough) on 40 short generators; bitwise comparison with one-shot synthesis.",
          "Exhaustive only for the enumerated sub-space (reported per sub-check); long utterances are sampled.", "4/C02"),
  "C03": ("exploration", "PBT with real threads on one shared engine (barrier + generated stagger), sequential reference, setter-history metamorphic relation, compile-time Send/Sync probe",
-         "Hundreds of cases x 2..16 concurrent jobs per run compared bitwise with a sequential reference; repeat / clone / interleaved live generator; getters unchanged; two setter histories ending in the same values. Detects shared hidden state with high probability; cannot enumerate interleavings.",
+         "Hundreds of cases x 2..16 concurrent jobs per run compared bitwise with a sequential reference; repeat / clone / interleaved live generator; getters unchanged; two setter histories ending in the same values; history independence against a fresh process; long utterances under both buffer placements of the harness-owned allocator (bit-identical trajectories and waveforms). Detects shared hidden state with high probability; cannot enumerate interleavings.",
          "The OS owns the schedule: a narrow race window can be missed and a failing schedule is not replayable (stated in DESIGN.md).", "4/C03"),
  "C04": ("exploration", "differential PBT: loaded voice vs independent .htsvoice reader + glob tree walk, generated voice files (round-trip through own writer)",
          "Thousands of generated labels against all 18 trees of the bundled voice and thousands of generated voice files (all header/tree/PDF shapes of the quantifier) compared bit-for-bit with an independent reader and, for generated files, with the written spec. Sampling, not proof: question semantics are only exercised on the corpus-derived label domain.",
